@@ -279,6 +279,7 @@ func (e *Engine) step(st *State, fr *Frame, in ssa.Instruction, onReturn func(*S
 			}
 		}
 		fr.regs[x] = VTuple{out}
+		st.calls = append(st.calls, callRec{target: "select", res: out, seq: len(st.calls)})
 	default:
 		panic(unsupported(fmt.Sprintf("instruction %T", in)))
 	}
